@@ -858,13 +858,36 @@ def apply_step(ctx, f, name, deco, x, tin):
                     f.mark_cell(v)
         f.callv([], t, [])
         return y
+    if deco == "go":
+        # the step runs in a goroutine (closure capturing the carriers); the launcher waits for it on a channel
+        y = run_in_goroutine(ctx, f, lambda env: fn(env, x), [x])
+        return y
     raise ValueError(deco)
+
+
+def run_in_goroutine(ctx, f, body, uses):
+    """go func() { body; done <- "d" }(); <-done   -- returns what body returns"""
+    t = ctx.fresh("t"); f.var(t, "func()")
+    done = ctx.fresh("done"); f.var(done, "chan string")
+    f.mkchan(done, 1)
+    g = f.closure(t, ctx.fresh("clo"), captures=[done])
+    env = Env(ctx, g, outer=f)
+    y = body(env)
+    for v in list(uses) + ([y] if isinstance(y, str) else []):
+        if v in f.vars and v not in g.captures:
+            g.captures.append(v)
+            f.mark_cell(v)
+    g.send(done, "_")
+    f.go_clo(t)
+    f.recv("_", done)
+    return y
 
 
 PROBEABLE = {"P", "PP", "PS", "SL", "M", "MK", "B", "GP", "CH"}
 
 
-def build_chain(chain, sink_kind="sink", name="p", source_kind="source", probes=False):
+def build_chain(chain, sink_kind="sink", name="p", source_kind="source", probes=False, src_in_go=False,
+                sink_in_go=False):
     """chain: list of (step name, decoration).  Returns minigo.Prog with main = source; steps; sink."""
     P = minigo.Prog(name)
     ctx = Ctx(P)
@@ -873,6 +896,8 @@ def build_chain(chain, sink_kind="sink", name="p", source_kind="source", probes=
     f.var(x, "string")
     if source_kind == "origin":
         f.origin(x)
+    elif src_in_go:
+        run_in_goroutine(ctx, f, lambda env: env.f.source(x), [x])
     else:
         f.source(x)
     ts = "S"
@@ -887,9 +912,11 @@ def build_chain(chain, sink_kind="sink", name="p", source_kind="source", probes=
         # probe every pointer-like carrier once more at the end: objects that are still referenced alias
         for v, t in carriers:
             f.probe(v)
-    if sink_kind == "sink":
+    if sink_kind == "sink" and sink_in_go and x in f.vars:
+        run_in_goroutine(ctx, f, lambda env: env.f.sink(x), [x])
+    elif sink_kind == "sink":
         f.sink(x)
     elif sink_kind == "bt":
         f.bt([x])
-    P.meta = {"chain": [[s, d] for s, d in chain], "final": ts}
+    P.meta = {"chain": [[s, d] for s, d in chain], "final": ts, "src_in_go": src_in_go, "sink_in_go": sink_in_go}
     return P
